@@ -161,28 +161,30 @@ example : LWF 0 [.m 1 97 1 60, .w 1 100 90 [(0, 2), (2, 3)], .b2 101 104 false 3
 theorem unsafe_layout_counterexample :
     (readAll .fixed false 8 20 (responseTokens [.m 1 5 1 60, .b2 10 11 false 12 [(0, 2, 12)]] (-1))).2.2 = .desync := by decide
 
-/-- `single_fetch` about **bytes** for the sublanguage "untruncated message set of uncompressed v2 record batches":
-the bytes the reference encoder (`Spec/RecordBatch.lean`) produces for the batches `bs` tokenize
-(`Spec/ByteLayout.tokenizeSet`, proved to invert the encoder: `tokenizeSet_enc`) to a stream on which the decoder
-delivers exactly the stored records at or above `o`.  `crc` is any checksum function below 2³², `dg` any digest of
-the observable record fields. -/
-theorem single_fetch_bytes (crc : Bytes → Nat) (hcrc : ∀ b, crc b < RW.M32) (dg : Spec.RB.FrameV2 → Spec.RB.RecV2 → Nat)
-    (bs : List BBatch) (hframes : ∀ b ∈ bs, b.frame.WF) (nb : Int) (hnb : 0 ≤ nb) (hwf : LWF nb (layoutOf dg bs))
-    (o hwm : Int) (ho : 0 ≤ o) (hne : hwm ≠ o) (expired : Bool) :
-    ∃ toks, tokenizeSet crc dg bs.length (encSetV2 crc bs) = some toks ∧
-      (readAll .fixed expired o hwm toks).1 = (allRecords (layoutOf dg bs)).filter (fun r => o ≤ r.1) ∧
-      (readAll .fixed expired o hwm toks).2.2 ≠ .desync ∧
-      (∀ r ∈ allRecords (layoutOf dg bs), o ≤ r.1 → r.1 < (readAll .fixed expired o hwm toks).2.1 →
-        r ∈ (readAll .fixed expired o hwm toks).1) := by
-  refine ⟨allTokens (layoutOf dg bs), tokenizeSet_enc crc hcrc dg bs hframes _ (Nat.le_refl _), ?_⟩
-  have hsafe : Safe o (layoutOf dg bs) := by
+/-- `single_fetch` about **bytes**, sublanguage "message set of uncompressed v2 record batches, cut at any byte":
+the first `n` bytes of what the reference encoder (`Spec/RecordBatch.lean`) produces for the batches `bs` are read
+by the byte-level tokenizer (`Spec/ByteLayout.tokenize`, proved equal to the truncated token stream of the layout:
+`tokenize_v2`) into a stream on which the decoder delivers exactly the stored records at or above `o` that lie
+completely within the first `n` bytes.  `crc` is any checksum function below 2³², `dg2` any digest of the observable
+record fields. -/
+theorem single_fetch_bytes (crc : Bytes → Nat) (hcrc : ∀ b, crc b < RW.M32) (dg2 : Int → Spec.RB.RecV2 → Nat)
+    (bs : List BBatch) (hframes : ∀ b ∈ bs, b.frame.WF) (nb : Int) (hnb : 0 ≤ nb) (hwf : LWF nb (layoutOf dg2 bs))
+    (o hwm : Int) (ho : 0 ≤ o) (hne : hwm ≠ o) (expired : Bool) (n : Nat) :
+    let toks := tokenize dg2 (n + 1) .hdr ((encSetV2 crc bs).take n)
+    (readAll .fixed expired o hwm toks).1 = (contained (layoutOf dg2 bs) n).filter (fun r => o ≤ r.1) ∧
+    (readAll .fixed expired o hwm toks).2.2 ≠ .desync ∧
+    (∀ r ∈ allRecords (layoutOf dg2 bs), o ≤ r.1 → r.1 < (readAll .fixed expired o hwm toks).2.1 →
+      r ∈ (readAll .fixed expired o hwm toks).1) := by
+  have hsafe : Safe o (layoutOf dg2 bs) := by
     apply safe_of_v2
     intro it hit
     simp only [layoutOf, List.mem_map] at hit
     obtain ⟨b, _, rfl⟩ := hit
     rfl
-  have h := single_fetch (layoutOf dg bs) nb hnb hwf o hwm ho hsafe hne (-1) expired
-  simp only [responseTokens, containedRecords, show ((-1 : Int) < 0) from by decide, if_true] at h
+  have h := single_fetch (layoutOf dg2 bs) nb hnb hwf o hwm ho hsafe hne (n : Int) expired
+  have hc : ¬ ((n : Int) < 0) := by omega
+  simp only [responseTokens, containedRecords, hc, if_false, Int.toNat_natCast] at h
+  simp only [tokenize_v2 crc hcrc dg2 bs hframes n (n + 1) (by omega)]
   exact ⟨h.1, h.2.1, h.2.2.1⟩
 
 /-- observation (a), not a finding: *outside* the fetch contract — a response cut inside its first v2 batch — the
